@@ -286,12 +286,16 @@ func (c *reusableConn) closeWithErr(err error) {
 	if err == nil {
 		err = net.ErrClosed
 	}
-	c.closeOnce.Do(func() {
-		c.t.m.Lock()
-		delete(c.t.conns, c)
-		delete(c.t.idleConns, c)
-		c.t.m.Unlock()
+	// Remove c from the transport before (and not inside) closeOnce.
+	// ReuseConnTransport.Close() calls closeWithErrByTransport(), which
+	// waits for closeOnce, while holding t.m. Asking for t.m inside closeOnce
+	// would be a deadlock.
+	c.t.m.Lock()
+	delete(c.t.conns, c)
+	delete(c.t.idleConns, c)
+	c.t.m.Unlock()
 
+	c.closeOnce.Do(func() {
 		c.closeErr = err
 		c.c.Close()
 		close(c.closeNotify)
